@@ -17,11 +17,16 @@ var (
 // RWMutex for concurrancy.
 func getLocation(offset int32, buf []byte) *time.Location {
 	mutexTimeZones.RLock()
-	if z, ok := cacheTimeZone[offset]; ok {
-		mutexTimeZones.RUnlock()
-		return z
-	}
+	z, ok := cacheTimeZone[offset]
 	mutexTimeZones.RUnlock()
+	if ok {
+		if z.String() == string(buf) {
+			return z
+		}
+		// Another text with the same offset ("-00:00" / "+00:00") is cached: the
+		// zone of this result must carry the name written in this file.
+		return time.FixedZone(string(buf), int(offset))
+	}
 	mutexTimeZones.Lock()
 	l := time.FixedZone(string(buf), int(offset))
 	cacheTimeZone[offset] = l
